@@ -479,7 +479,8 @@ def gen_parallel(g, name, data, depth, allow_errors):
         g.in_failing_branch = saved
     if fail_idx >= 0 and not nested_in_failing:
         g.feature("fanout-with-failing-branch")
-        add_fanout_handlers(g, s)
+        if g.cfg.get("fanout_handlers", True):
+            add_fanout_handlers(g, s)
     if d(st.integers(0, 9)) < 3:
         s["ResultSelector"] = {"first.$": "$[0]", "all.$": "$"}
         g.feature("ResultSelector")
@@ -529,7 +530,8 @@ def gen_map(g, name, data, depth, allow_errors):
                                             pn: {"Type": "Pass", "End": True}}}
         g.feature("fanout-with-failing-branch")
         g.feature("map-failing-item")
-        add_fanout_handlers(g, s)
+        if g.cfg.get("fanout_handlers", True):
+            add_fanout_handlers(g, s)
     else:
         # the iterator is generated against the first item; paths inside it may miss for other items
         saved = g.cfg.get("misses", True)
